@@ -184,7 +184,7 @@ fn charstrings_obs(
             let mut sink = NullSink { h: vcore::Fnv::new(), n: 0 };
             let r = charstring::evaluate(code, global.clone(), subrs.clone(), blend, &mut sink);
             w.calls += 1 + sink.n;
-            w.nodes += sink.n / 4;
+            w.nodes += sink.n;
             w.u(sink.h.finish());
             match r {
                 Ok(()) => w.tagb(1),
@@ -252,7 +252,7 @@ pub fn cff_driver(data: &[u8], _ctx: &[Vec<u8>], _a: [u32; 3], w: &mut Walker) {
                     }
                 }
                 w.calls += k;
-                w.nodes += k / 16;
+                w.nodes += k;
                 w.u(k);
             }
             Ok(None) => w.tagb(2),
@@ -359,6 +359,39 @@ pub fn cff2_driver(data: &[u8], _ctx: &[Vec<u8>], _a: [u32; 3], w: &mut Walker) 
     charstrings_obs(data, &info, &privs, global.clone(), true, vstore, w);
 }
 
+/// Sub-blobs of a CFF table for the seed list: (charstrings, dict blobs). Uses the code under test
+/// (only called in the seed-construction child).
+pub fn cff_sub_blobs(data: &[u8], max: usize) -> (Vec<Vec<u8>>, Vec<Vec<u8>>) {
+    let mut cs_out = vec![];
+    let mut dicts = vec![];
+    let Ok(cff) = read_fonts::tables::cff::Cff::read(FontData::new(data)) else { return (cs_out, dicts) };
+    let tops: Index = cff.top_dicts().into();
+    let Ok(top) = tops.get(0) else { return (cs_out, dicts) };
+    dicts.push(top.to_vec());
+    let mut cs_off = None;
+    for e in dict::entries(top, None).flatten() {
+        match e {
+            dict::Entry::CharstringsOffset(o) => cs_off = Some(o),
+            dict::Entry::PrivateDictRange(r) => {
+                if let Some(p) = data.get(r) {
+                    dicts.push(p.to_vec())
+                }
+            }
+            _ => {}
+        }
+    }
+    if let Some(Ok(ix)) = cs_off.and_then(|o| data.get(o..)).map(|d| Index::new(d, false)) {
+        for i in 0..(ix.count() as usize).min(max) {
+            if let Ok(c) = ix.get(i) {
+                if !c.is_empty() {
+                    cs_out.push(c.to_vec());
+                }
+            }
+        }
+    }
+    (cs_out, dicts)
+}
+
 /// a[2]: 0 = bare Index1, 1 = bare Index2, 2 = DICT bytes, 3 = charstring bytes (no subrs)
 pub fn ps_blob_driver(data: &[u8], _ctx: &[Vec<u8>], a: [u32; 3], w: &mut Walker) {
     match a[2] {
@@ -377,6 +410,8 @@ pub fn ps_blob_driver(data: &[u8], _ctx: &[Vec<u8>], a: [u32; 3], w: &mut Walker
         _ => {
             let mut sink = NullSink { h: vcore::Fnv::new(), n: 0 };
             let r = charstring::evaluate(data, Index::default(), None, None, &mut sink);
+            w.calls += 4 * sink.n; // every emitted path command is an observation
+            w.nodes += sink.n;
             w.u(sink.h.finish());
             match r {
                 Ok(()) => w.tagb(1),
@@ -459,7 +494,8 @@ pub fn bitmap_driver(data: &[u8], ctx: &[Vec<u8>], a: [u32; 3], w: &mut Walker) 
         }
     }
     // hostile locations against the data table
-    for (fmt, off, sz) in [(1u16, 0usize, 0usize), (17, 4, usize::MAX), (5, usize::MAX, 1), (19, 0, 8), (8, 4, 64), (9, 4, 64), (0xFFFF, 0, 0)] {
+    // (offsets and sizes stay within what `location()` can produce from 32-bit font fields)
+    for (fmt, off, sz) in [(1u16, 0usize, 0usize), (17, 4, u32::MAX as usize), (5, 2 * (u32::MAX as usize), 1), (19, 0, 8), (8, 4, 64), (9, 4, 64), (0xFFFF, 0, 0)] {
         let loc = BitmapLocation { format: fmt, data_offset: off, data_size: sz, bit_depth: 1, metrics: None };
         data_of(&loc, w);
     }
@@ -603,7 +639,7 @@ pub fn ift_driver(data: &[u8], _ctx: &[Vec<u8>], a: [u32; 3], w: &mut Walker) {
                 }
             }
             w.calls += k;
-            w.nodes += k / 16;
+            w.nodes += k;
             w.u(k);
             if let Some(Ok(fm)) = t.feature_map() {
                 for mi in [0u16, 1, 255, 256, 0xFFFF] {
@@ -652,7 +688,9 @@ pub fn colr_driver(data: &[u8], _ctx: &[Vec<u8>], _a: [u32; 3], w: &mut Walker) 
             Err(e) => rerr(w, &e),
         }
         match colr.v1_base_glyph(gid) {
-            Ok(Some((_p, id))) => w.u(id as u64),
+            // the PaintId is documented as an address-derived opaque token for recursion detection:
+            // it is deliberately NOT part of the observation digest
+            Ok(Some((_p, _id))) => w.tagb(1),
             Ok(None) => w.tagb(2),
             Err(e) => rerr(w, &e),
         }
@@ -664,7 +702,7 @@ pub fn colr_driver(data: &[u8], _ctx: &[Vec<u8>], _a: [u32; 3], w: &mut Walker) 
     }
     for i in (0..16usize).chain([255, usize::MAX]) {
         match colr.v1_layer(i) {
-            Ok((_p, id)) => w.u(id as u64),
+            Ok((_p, _id)) => w.tagb(1),
             Err(e) => rerr(w, &e),
         }
     }
